@@ -136,8 +136,13 @@ def report(ctx, res):
 def run(ctx):
     quick = ctx.tier == "quick"
     if ctx.replay:
-        binp = ctx.go_build("./cmd/c15")
         d = json.load(open(ctx.replay))["replay"]
+        if isinstance(d, dict) and ("pool" in d or "row" in d or "single" in d):
+            # found by the shared certificate pool cases
+            from props import c06
+            res, _ = c06.run_cert(ctx, lambda k: k.startswith("own-aggregate-rejected"))
+            finish(ctx, LEVEL, dict(traces_validated_against_impl=res["states"], samples=[str(d)[:300]]))
+        binp = ctx.go_build("./cmd/c15")
         if d.get("mode") == "select":
             cf = ctx.path("replay_cases.ndjson"); open(cf, "w").write(json.dumps(d["case"]) + "\n")
             res = select_replay(ctx, binp, cf, "replay")
@@ -197,6 +202,11 @@ def run(ctx):
         tot("switches_to_shorter_chain"), tot("forges_below_largest_height_ever"), tot("generated_blocks_accepted"), tot("generated_blocks_rejected"),
         tot("generated_blocks_with_transactions"), tot("generated_blocks_with_aggregate_commit"), tot("header_pairs_checked_for_contradiction"),
         r1.get("violations_per_key"), r2.get("violations_per_key")))
+    # the aggregate commit a generated block carries is whatever GetAggregateCommit assembles from the pool: for every set
+    # of certifying validators on chains with finality and validator-set changes (the C06 pool cases) it must pass the
+    # node's own verification, or the node rejects its own block
+    from props import c06
+    cres, _ = c06.run_cert(ctx, lambda k: k.startswith("own-aggregate-rejected"), replay_ok=False)
     if (tot("forges") < 500 or tot("forges_through_unmodified_forge") < 200 or tot("crash_forges") < 20 or tot("switches_to_shorter_chain") < 50
             or tot("forges_below_largest_height_ever") < 20 or tot("generated_blocks_with_transactions") < 100
             or tot("generated_blocks_with_aggregate_commit") < 2 or tot("header_pairs_checked_for_contradiction") < 300
